@@ -234,6 +234,12 @@ def gen_scenario(s: Choices, cls, cfg):
         sc["exec"] = ["chunked_values", lens, 1 + s.draw(3)]
     sc["workers"] = s.weighted([(5, None), (2, 1), (2, 2), (1, 3), (1, 5)])
     sc["return_count"] = not s.chance(1, 3)
+    # containers of codes / values / boolean mask (the same ones for the single-pass and the
+    # block-wise call, so the comparison between the two stays container-consistent)
+    vc = s.weighted([(8, "ndarray"), (2, "strided"), (1, "readonly"), (2, "pandas"), (1, "polars"), (1, "arrow")])
+    if vc in ("polars", "arrow") and not (dtype.startswith("float") or dtype in ("int64", "int32")):
+        vc = "pandas"
+    sc["containers"] = [s.weighted([(8, "ndarray"), (1, "strided"), (2, "pandas")]), vc, s.weighted([(5, "ndarray"), (1, "pandas")])]
     # fault plan
     if cfg.get("fault_mode"):
         kind = s.weighted([(3, "task_fail_before"), (3, "task_fail_after"), (2, "spawn_fail")])
@@ -434,6 +440,29 @@ def _build_inputs(sc):
     return codes, values, mask
 
 
+def _contain(arr, how, n_index=None):
+    """Put an array into the container drawn for it (pandas objects get a non-default index)."""
+    import pandas as pd
+    import polars as pl
+    import pyarrow as pa
+
+    if how == "strided":
+        big = np.zeros(2 * arr.size + 1, dtype=arr.dtype)
+        big[1::2][: arr.size] = arr
+        return big[1::2][: arr.size]
+    if how == "readonly":
+        a = arr.copy()
+        a.setflags(write=False)
+        return a
+    if how == "pandas":
+        return pd.Series(arr, index=np.arange(arr.size) * 2 + 5)
+    if how == "polars":
+        return pl.Series("v", arr)
+    if how == "arrow":
+        return pa.array(arr)
+    return arr
+
+
 def _call(kernel, codes, values, ngroups, mask, n_threads, return_count=True):
     from groupby_lib.groupby import numba as nbf
 
@@ -514,7 +543,12 @@ def execute(sc, sched: Choices, cls, cfg):
     # ---- single pass under the null context (no pool can be created) ----
     executor.set_context(None)
     rc = sc.get("return_count", True)
-    single = _outcome(lambda: _call(kernel, codes, values, ngroups, mask, 1, rc))
+    cc, vcont, mc = sc.get("containers", ["ndarray", "ndarray", "ndarray"])
+    codes_in = _contain(codes, cc)
+    values_in = _contain(values, vcont)
+    mask_in = _contain(mask, mc) if (isinstance(mask, np.ndarray) and mask.dtype == bool) else mask
+    features["containers"] = "/".join([cc, vcont, mc])
+    single = _outcome(lambda: _call(kernel, codes_in, values_in, ngroups, mask_in, 1, rc))
 
     # ---- oracle (i): reference model ----
     try:
@@ -546,7 +580,7 @@ def execute(sc, sched: Choices, cls, cfg):
     # ---- block-wise under the simulated pool ----
     ex = sc["exec"]
     if ex[0] == "threads":
-        bw_values, n_threads = values, ex[1]
+        bw_values, n_threads = values_in, ex[1]
     else:
         lens = ex[1]
         bounds = np.cumsum([0] + list(lens))
@@ -560,7 +594,7 @@ def execute(sc, sched: Choices, cls, cfg):
         n_threads = ex[2]
     ctx = executor.SimContext(sched=sched, workers=sc["workers"], cpu_count=4, fault=sc["fault"], monitor=True)
     with executor.use_context(ctx):
-        block = _outcome(lambda: _call(kernel, codes, bw_values, ngroups, mask, n_threads, rc))
+        block = _outcome(lambda: _call(kernel, codes_in, bw_values, ngroups, mask_in, n_threads, rc))
     rec["ticks"] = ctx.ticks
     rec["interleavings"] = ctx.interleavings()
     rec["events"] = ctx.event_digest()
